@@ -182,6 +182,11 @@ func (c *RapidChooser) Probes(h *Hand, gs *pf.GameState) []Op {
 		k = c.Pr.Probes
 	}
 	var out []Op
+	if ev == "GameClosed" && h.Prop == "C06" {
+		// a closed hand accepts nothing: re-activating it from its last event
+		// (what every accepted action does at its end) must not bring it back
+		out = append(out, Op{K: "probe", Seat: -1, A: "resume"})
+	}
 	cw, prs := gs.Status.CurrentWager, gs.Status.PreviousRaiseSize
 	for i := 0; i < k; i++ {
 		kind := rapid.IntRange(0, 5).Draw(rt, "probeKind")
@@ -221,6 +226,29 @@ func (c *RapidChooser) Probes(h *Hand, gs *pf.GameState) []Op {
 			a := allActions[rapid.IntRange(0, len(allActions)-1).Draw(rt, "seatAction")]
 			out = append(out, Op{K: "probe", Seat: seat, A: a, X: probeAmount(rt, gs, p, cw, prs)})
 		}
+	}
+	return out
+}
+
+// Queries: now and then a few read-only calls on the live object.
+func (c *RapidChooser) Queries(h *Hand, gs *pf.GameState) []Op {
+	if c.Pr.NoQueries || rapid.IntRange(0, 5).Draw(c.RT, "queries") != 0 {
+		return nil
+	}
+	var out []Op
+	n := rapid.IntRange(1, 3).Draw(c.RT, "nQueries")
+	for i := 0; i < n; i++ {
+		out = append(out, Op{K: "query", A: rapid.SampledFrom(queryKinds).Draw(c.RT, "query"), Seat: rapid.IntRange(0, len(gs.Players)-1).Draw(c.RT, "querySeat")})
+	}
+	return out
+}
+
+func (c *ReplayChooser) Queries(h *Hand, gs *pf.GameState) []Op {
+	c.skipTable()
+	var out []Op
+	for c.pos < len(c.Ops) && c.Ops[c.pos].K == "query" {
+		out = append(out, c.Ops[c.pos])
+		c.pos++
 	}
 	return out
 }
